@@ -396,8 +396,17 @@ pub async fn drive_next<T, P: Processor<T>>(p: &P, ctl: &Rc<Ctl>) -> NextEnd<Res
 
 pub struct Ctx {
     pub rt: tokio::runtime::Runtime,
-    pub store: SqliteStore,
+    store: Option<SqliteStore>,
     pub uses: u64,
+}
+
+impl Drop for Ctx {
+    fn drop(&mut self) {
+        // sqlx returns pooled connections in a spawned task: the store must be dropped inside
+        // the runtime context (a rollback task of a dropped permit may still be queued)
+        let _g = self.rt.enter();
+        self.store = None;
+    }
 }
 
 static POOL: Mutex<Vec<Ctx>> = Mutex::new(Vec::new());
@@ -409,7 +418,11 @@ impl Ctx {
             .build()
             .expect("runtime");
         let store = rt.block_on(SqliteStore::temporary());
-        Ctx { rt, store, uses: 0 }
+        Ctx { rt, store: Some(store), uses: 0 }
+    }
+
+    pub fn store(&self) -> SqliteStore {
+        self.store.clone().expect("store")
     }
 
     /// Take a context from the pool (a used one has had its tables emptied).
